@@ -20,7 +20,7 @@ ASSUMPTIONS = [
     "entries at or after a position where the reference mu_i is within 1e-6 u of 0 or u are not judged (conventions the statement does not fix); counted in skipped_not_judged",
     "the entry at which the running total first exceeds N t is accepted as either 0 or the product (C05 fixes that it may only be lowered); later entries must be 0",
     "for the SPRT the entries at or after a position where (N eta - S)/(N-j+1) leaves [0,u] are not judged (alternative impossible)",
-    "products compared with relative tolerance 1e-9; conversion round trips with 1e-7 where mu is at least 1e-3 u away from 0 and u",
+    "products compared with relative tolerance 1e-9; conversion round trips with 1e-7 where mu is at least 1e-3 u away from 0 and no closer than 1e-6 u to u",
 ]
 REL = 1e-9
 
@@ -55,7 +55,8 @@ def strategy(shard):
             x = ([u] * k + [0.0] + [u] * draw(st.integers(0, 58 - k)))
             if cfg["N"] is not None:
                 x = x[: cfg["N"]]
-        conv = {"mu": u * draw(st.floats(1e-3, 1 - 1e-3)), "lam": draw(st.floats(0.0, 2.0)) / u, "eta_frac": draw(st.floats(0.0, 1.0))}
+        conv = {"mu": u * draw(st.one_of(st.floats(1e-3, 1 - 1e-3), st.sampled_from([1 - 1e-6, 1 - 4e-6, 1 - 1e-5, 1 - 1e-4]))),
+                "lam": draw(st.floats(0.0, 2.0)) / u, "eta_frac": draw(st.floats(0.0, 1.0))}
         return {"cfg": cfg, "x": x, "conv": conv}
 
     return case()
